@@ -56,8 +56,21 @@ pub enum Nest {
     RepeatSkippedSum,
 }
 
+/// How the events of the two scenarios are laid out in the (raw, not normalised) stream
+/// that `Summarize` sees when it wraps a `Normalize`.
+#[derive(Clone, Copy, Debug, PartialEq, Eq)]
+pub enum Merge {
+    /// one scenario after the other
+    Seq,
+    /// all of U (with its rule bracket) between attempt `k` and `k + 1` of T
+    UAfterAttempt(usize),
+    /// the events of T and U alternate one by one
+    Zip,
+}
+
 #[derive(Clone, Debug)]
 pub struct Case {
+    pub merge: Merge,
     pub t: ScenCase,
     pub u: Option<(ScenCase, Placement)>,
     pub fbg: Vec<StepKind>,
@@ -139,6 +152,10 @@ pub fn build(case: &Case) -> Option<(Config, Vec<Ev>)> {
             u_pos = Some(1);
         }
     }
+    if case.merge != Merge::Seq && (cfg.feats.len() != 1 || u_pos.is_none()) {
+        // the interleaved layouts are defined for two scenarios of one feature
+        return None;
+    }
     cfg.items = (0..cfg.feats.len()).map(Item::Feat).collect();
     // a step-less scenario directly followed by `Rule:` is not parsed as intended by gherkin
     for (i, f) in cfg.feats.iter().enumerate() {
@@ -207,6 +224,57 @@ pub fn build(case: &Case) -> Option<(Config, Vec<Ev>)> {
     for fi in 0..cfg.feats.len() {
         let fname = crate::spec::feat_name(fi);
         s.push(Ev::FeatStarted(fname.clone()));
+        if case.merge != Merge::Seq {
+            // both scenarios live in this feature; lay their events out as the merge says
+            let (tp, up) = (t_pos, u_pos.expect("merge needs two scenarios"));
+            let ev_list = |pos: usize| -> Vec<Vec<Ev>> {
+                per_scen[pos]
+                    .iter()
+                    .map(|(r, evs, _)| {
+                        evs.iter()
+                            .map(|e| sc(&fname, infos[pos].rule.as_deref(), &infos[pos].name, *r, e.clone()))
+                            .collect()
+                    })
+                    .collect()
+            };
+            let (t_atts, u_atts) = (ev_list(tp), ev_list(up));
+            let u_rule = infos[up].rule.clone();
+            let mut u_block: Vec<Ev> = Vec::new();
+            if let Some(r) = &u_rule {
+                u_block.push(Ev::RuleStarted(fname.clone(), r.clone()));
+            }
+            u_block.extend(u_atts.iter().flatten().cloned());
+            if let Some(r) = &u_rule {
+                u_block.push(Ev::RuleFinished(fname.clone(), r.clone()));
+            }
+            match case.merge {
+                Merge::UAfterAttempt(k) => {
+                    for (i, a) in t_atts.iter().enumerate() {
+                        s.extend(a.iter().cloned());
+                        if i == k {
+                            s.extend(u_block.iter().cloned());
+                        }
+                    }
+                }
+                Merge::Zip => {
+                    let t_all: Vec<Ev> = t_atts.into_iter().flatten().collect();
+                    let (mut i, mut j) = (0, 0);
+                    while i < t_all.len() || j < u_block.len() {
+                        if i < t_all.len() {
+                            s.push(t_all[i].clone());
+                            i += 1;
+                        }
+                        if j < u_block.len() {
+                            s.push(u_block[j].clone());
+                            j += 1;
+                        }
+                    }
+                }
+                Merge::Seq => unreachable!(),
+            }
+            s.push(Ev::FeatFinished(fname));
+            continue;
+        }
         let mut open_rule: Option<String> = None;
         for (pos, info) in infos.iter().enumerate().filter(|(_, i)| i.feat_idx == fi) {
             if cut_now {
@@ -657,7 +725,32 @@ pub fn cases(thorough: bool) -> Vec<Case> {
                                 for u in us_opts {
                                     for perrs in perr_opts {
                                         for transform in [Transform::None, Transform::Fos, Transform::Cut] {
+                                            // interleaved layouts of the two scenarios (same feature)
+                                            let t_attempts = chain.len();
+                                            if transform != Transform::Cut
+                                                && matches!(&u, Some((_, Placement::SameAfter | Placement::InRule)))
+                                            {
+                                                let mut merges = vec![Merge::Zip];
+                                                for k in 0..t_attempts.saturating_sub(1) {
+                                                    if k == 0 || thorough {
+                                                        merges.push(Merge::UAfterAttempt(k));
+                                                    }
+                                                }
+                                                for merge in merges {
+                                                    out.push(Case {
+                                                        merge,
+                                                        t: t.clone(),
+                                                        u: u.clone(),
+                                                        fbg: fbg.clone(),
+                                                        before,
+                                                        after,
+                                                        perrs: *perrs,
+                                                        transform,
+                                                    });
+                                                }
+                                            }
                                             out.push(Case {
+                                                merge: Merge::Seq,
                                                 t: t.clone(),
                                                 u: u.clone(),
                                                 fbg: fbg.clone(),
@@ -970,7 +1063,7 @@ pub fn run(a: &ShardArgs) -> serde_json::Value {
         "property": "C12", "tier": a.tier,
         "total_configs": cases.len(), "configs_done": done, "configs_skipped_budget": skipped,
         "evaluations": evaluations, "distinct_nontrivial": nontrivial.len(),
-        "rule": "every case of the grammar (scenario shape x hooks x retry budget x fault chain x second scenario x placement x parser errors x transform) through 4 nestings of Summarize/Repeat, plus plain Summarize over the same features with all positions erased (programmatically built features); non-trivial = distinct streams containing a retry, a failure, a skip or a parser error",
+        "rule": "every case of the grammar (scenario shape x hooks x retry budget x fault chain x second scenario x placement x layout of the two scenarios in the raw stream (sequential, U between two attempts of T, events alternating) x parser errors x transform) through 4 nestings of Summarize/Repeat, plus plain Summarize over the same features with all positions erased (programmatically built features); non-trivial = distinct streams containing a retry, a failure, a skip or a parser error",
         "exhaustive": skipped == 0,
         "details": {"unrealisable_cases": unrealisable, "known_finding_hits": known},
         "violations": violations, "samples": samples,
